@@ -67,6 +67,14 @@ CHECKS = {
                 text="Whole-chain value graphs new(h) -> input(m1)[-> input(m2)] -> finalize for the 512- and 1024-bit compressors, for each of the three dispatch arms, equal Omega(f(f(h,m1),m2)) of the Groestl specification with the AES S-box uninterpreted on both sides (MixBytes' GF(2^8) arithmetic, ShiftBytes, round constants and the transposed internal layout are compared bit-exactly); padding, block counting and truncation for every buffer position of all four hashers; IV; update's block counting on boundary cases.",
                 note="Trusted: spec/groestl.py (validated against KATs with the S-box computed from its definition), intrinsic models incl. AESENCLAST. Block counts are symbolic 64-bit values, so 'beyond 255 / 65535 blocks' is covered by the padding rule.",
                 technique="compositional value-graph normalisation (S-box uninterpreted), exhaustive split over buffer positions"),
+    "C08": dict(level="other", design="3/C08",
+                text="State types are plain owned data (recursive type-shape walk, 19 instantiations), clone is the bitwise identity and reset equals Default on a fully symbolic prior state (value graphs), and update(update(s,a),b) leaves the same state as update(s,a++b) for symbolic contents over boundary buffer positions and length pairs (108 compositions per type, per-block functions uninterpreted). With finalisation a function of the state (C04-C07) and no shared state (C18) this gives chunking, clone and reset invariance.",
+                note="Chunk lengths are a finite boundary family (0, 1, block-1, block, block+1, many blocks) per buffer position; block-buffer is interpreted from its real MIR, so its dependence on lengths is what is being exercised.",
+                technique="type-shape analysis + value-graph comparison of state transformers (composition vs. concatenation)"),
+    "C17": dict(level=TV, design="3/C17",
+                text="All length/bit/block counters are symbolic full-width words in the update and finalisation value graphs of the four hash families: BLAKE's double-word bit counter with carry, Skein's byte tweak, Groestl's block counter and final count, JH's byte length and 64-bit bit-length field - so exactness holds across every word boundary, not just the sampled ones. Plus a def-use taint rule: no narrowing integer cast on a slice length or counter field anywhere in the hash crates, and 64-bit counter field types.",
+                note="Per-block functions are uninterpreted here (C04-C07 decide them for symbolic counters). Format limits (counter overflow beyond 2^64 etc.) are outside the domain.",
+                technique="value-graph normalisation with symbolic counters + MIR def-use taint (narrowing casts)"),
 }
 
 REASONS = {}
